@@ -102,3 +102,50 @@ func VerifHarness_C17_slow_handler() {
 	verifrt.Assert(last == first+uint64(nMsgs)-1, "C17.slow.nothing-missed-after-reconnect")
 	verifrt.Reach("C17.slow.done")
 }
+
+// VerifHarness_C17_headers_stall: the requests goroutine is behind (its response queue is full for a
+// whole message time-out) when a headers message arrives.  The handle thread gives up queuing it -
+// and must go on: the notifications behind the headers message still reach the handlers.
+func VerifHarness_C17_headers_stall() {
+	ctx := context.Background()
+	c := &RemoteClient{
+		addRequestsChannel:     make(chan *request, 100),
+		removeRequestsChannel:  make(chan *request, 100),
+		requestResponseChannel: make(chan *requestResponse, 1),
+	}
+	c.handlerChannel = make(chan *Message, 100)
+	c.messageTimeout.Store(50 * time.Millisecond)
+	c.requestTimeout.Store(200 * time.Millisecond)
+	c.handshakeComplete.Store(false)
+	c.accepted.Store(true)
+	c.conn.Store(net.Conn(newVkConn()))
+	h := &c17Handler{}
+	c.RegisterHandler(h)
+	c.nextMessageID.Store(uint64(1))
+	verifrt.Assert(c.Ready(ctx, 1) == nil, "C17.ready.ok")
+	c.requestResponseChannel <- &requestResponse{message: &Message{Payload: &FeeQuotes{}}} // nobody is taking it
+
+	blocked := verifrt.RunUntilBlocked(func() {
+		c.handleMessage(ctx, &Message{Payload: &Headers{StartHeight: 9}})
+	})
+	verifrt.Sig("headers-stall", "blocked")
+	verifrt.Assert(!blocked, "C17.handle-thread-does-not-block-for-ever-on-a-headers-message")
+	if blocked {
+		return
+	}
+	tx := wire.NewMsgTx(1)
+	verifrt.Assert(c.handleMessage(ctx, &Message{Payload: &Tx{ID: 1, Tx: tx}}) == nil, "C17.handle.no-error")
+	for len(c.handlerChannel) > 0 {
+		msg := <-c.handlerChannel
+		verifrt.Assert(c.processHandler(ctx, msg) == nil, "C17.process.no-error")
+	}
+	delivered := false
+	for _, e := range h.log {
+		if e.kind == "tx" && e.id == 1 {
+			delivered = true
+		}
+	}
+	verifrt.Sig("headers-stall", "later")
+	verifrt.Assert(delivered, "C17.notification-behind-the-headers-message-is-delivered")
+	verifrt.Reach("C17.headers-stall.done")
+}
